@@ -368,7 +368,7 @@ func (f c13aFeats) desc(s string) string {
 var (
 	c13aTokens = []string{
 		"Migros", "Zürich", "ab", "x", "7", "42", " ", " ", "  ", "\t", "\"", "\"", "'", ";", ",", "@", "#", "*", "%", "\\",
-		"//", "-", ".", ":", "/", "(", "é", "ß", "Ø", "\u00a0", "€", "日本", "😀", "Ωμέγα", "é", "&", "=", "<", "|", "$", "{}",
+		"//", "-", ".", ":", "/", "(", "é", "ß", "Ø", "\u00a0", "€", "日本", "😀", "Ωμέγα", "\ufffd", "\ufeff", "é", "&", "=", "<", "|", "$", "{}",
 	}
 	c13aTokensLatin1 = []string{
 		"Migros", "Zürich", "ab", "x", "7", "42", " ", " ", "  ", "\t", "\"", "\"", "'", ";", ",", "@", "#", "*", "%", "\\",
